@@ -186,7 +186,8 @@ def region_case(draw):
         if h is None:
             break   # heading after a smooth quadratic is not tracked by the generator: stop the history there
     return {"kind": "region", "start": [draw(cv), draw(cv)], "tol": draw(st.sampled_from([0.01, 0.01, 0.002])), "max_evals": 1000, "els": els, "calls": calls,
-            "simple": draw(st.sampled_from([False, False, True])), "io": draw(st.sampled_from(["none", "gds", "oas"]))}
+            "simple": draw(st.sampled_from([False, False, True])), "io": draw(st.sampled_from(["none", "gds", "oas"])),
+            "ioscale": draw(st.sampled_from([1.0, 1.0, 2.0, 0.5, 3.0]))}      # the path is scaled about the origin before it is saved
 
 
 # ---------------------------------------------------------------------------- scripts
@@ -349,8 +350,11 @@ def check_region(ctx, case, ignore_known=False):
     lines = new_lines("p", case, simple) + [call_line("p", c) for c in case["calls"]]
     lines.append("rp topoly p 0 0 0 -")
     io = case["io"] if simple else "none"
+    ks = float(case.get("ioscale", 1.0)) if io != "none" else 1.0
     if io != "none":
         path = os.path.join(ctx.tmpdir, "c08.%s" % io)
+        if ks != 1.0:
+            lines.append("xf rp p scale %s %s %s" % (fl(ks), fl(0.0), fl(0.0)))
         lines += ["cell new c %s" % hx("TOP"), "cell add c rp p", "lib new l %s %s %s" % (hx("L"), fl(1e-6), fl(1e-9)), "lib add l c"]
         if io == "gds":
             lines += ["io write_gds l %s 199" % path, "io read_gds r %s 0 %s N" % (path, fl(1e-3))]
@@ -487,18 +491,18 @@ def check_region(ctx, case, ignore_known=False):
             if centres[i] is None:
                 continue
             got = res[i]
-            w0 = float(rm.interp_fn(H.w[i][0])(np.array([0.0]))[0])
+            w0 = ks * float(rm.interp_fn(H.w[i][0])(np.array([0.0]))[0])      # scale_width is on: the width follows the scaling
             gw = 2 * got["elements"][0]["hwo"][0][0]
             if abs(gw - w0) > 2.1e-3:
                 fail("%s PATH record of element %d: width %r, the path's width at its start is %r" % (io, i, gw, w0))
-            sp = np.array(got["spine"], dtype=float)
+            sp = np.array(got["spine"], dtype=float) / ks      # compared in the unscaled frame, band scaled accordingly
             C = centres[i]
             # near a corner the two centre curves are trimmed at their intersection: my untrimmed ends are not compared there
             keep = np.ones(len(C), dtype=bool)
             for x in excls.get(i, []):
                 keep &= np.hypot(C[:, 0] - x[0], C[:, 1] - x[1]) > x[2]
             C = C[keep]
-            bandc = 2 * tol + 3e-3
+            bandc = 2 * tol * max(1.0, 1.0 / ks) + 3e-3 / ks      # the tolerance applies to the scaled curve
             Cfull = centres[i]
             far = np.ones(len(sp), dtype=bool)
             for x in excls.get(i, []):
